@@ -33,6 +33,9 @@ var kindsT = []kindT{
 	{"float64", reflect.TypeOf(float64(0)), []interface{}{float64(0), 1.5, 2.5}, []string{"0", "1.5", "2.5"}},
 	{"bool", reflect.TypeOf(false), []interface{}{false, true, true}, []string{"false", "true", "true"}},
 	{"uint8", reflect.TypeOf(uint8(0)), []interface{}{uint8(0), uint8(1), uint8(255)}, []string{"0", "1", "255"}},
+	// different values that print alike with %v: equality is equality of values, not of renderings
+	{"[2]string", reflect.TypeOf([2]string{}), []interface{}{[2]string{}, [2]string{"a b", ""}, [2]string{"a", "b "}}, []string{"zero", "x", "y"}},
+	{"struct{A,B string}", reflect.TypeOf(struct{ A, B string }{}), []interface{}{struct{ A, B string }{}, struct{ A, B string }{"x y", "z"}, struct{ A, B string }{"x", "y z"}}, []string{"zero", "x", "y"}},
 }
 
 // canonical form of an error for unordered comparison: group clauses as sorted member lists + text.
@@ -404,7 +407,7 @@ func main() {
 	runner.Main(runner.Config{
 		Property:  "C17",
 		Technique: "bounded-exhaustive enumeration of group assignments x value assignments x object placements x entry points vs per-object group model",
-		Rule: "objects with 2..3 (thorough 4) fields/keys, each in {none, either=1, either=2, botheq=1, botheq=2}, kinds string/int32 (and, up to 3 members, [2]int32, float64, bool, uint8), values {zero,x,y}: all assignments; placements: single struct, two slice elements, slice of pointers, " +
+		Rule: "objects with 2..3 (thorough 4) fields/keys, each in {none, either=1, either=2, botheq=1, botheq=2}, kinds string/int32 (and, up to 3 members, [2]int32, float64, bool, uint8, [2]string and a two-string struct whose distinct values print alike), values {zero,x,y}: all assignments; placements: single struct, two slice elements, slice of pointers, " +
 			"two map entries by pointer, two and three map entries by value, nested child + slice of kids + map of kids by value + array of kids under a parent using the same group ids; Map, []map (two objects), Url (both parameter orders); expected group clauses (one per violated group, listing all members, " +
 			"single-member groups as rule-writing errors) compared as multisets with members as sets; non-trivial = >=2 groups or objects whose verdicts differ",
 		Assumptions: []string{"every group member is present in Map/Url inputs (possibly empty)", "group clause order and Map member order unspecified (Go maps)"},
